@@ -183,7 +183,17 @@ template<typename T, bool OW> struct Sys {
         return b;
     }
 
+    // The key is read from the implementation's own fields.  Should a refactoring rename them, the harness still builds: the key is then derived from the public API
+    // (capacity, size and the physical arrangement of the elements as their addresses show it), which merges a little more (the head position of an EMPTY buffer is invisible).
+    template<typename B> static constexpr bool known_layout_v = requires(const B &x) { (size_t)x.m_capacity; (ssize_t)x.m_pos; (size_t)x.m_size; &x.m_data[0]; };
     std::string key(const RB &b) {
+        if constexpr (!known_layout_v<RB>) {
+            std::string k = fmt("%d|%zu|pub|%zu|", (int)OW, (size_t)b.capacity(), (size_t)b.size());
+            if (b.size() > 0) { const T *lo = &b[0]; size_t wrap = 0; for (size_t i = 1; i < b.size(); i++) { if (&b[i] < lo) lo = &b[i]; if (&b[i] < &b[i - 1]) wrap = i; } k += fmt("%zd|%zu", (ssize_t)(&b[0] - lo), wrap); }
+            return k;
+        } else return key_private(b);
+    }
+    template<typename B> std::string key_private(const B &b) {
         std::string k = fmt("%d|%zu|%zd|%zu", (int)OW, (size_t)b.m_capacity, (ssize_t)b.m_pos, (size_t)b.m_size);
         if (cfg.tracked) {
             k += "|";
